@@ -3,7 +3,7 @@
 # property, reverts, and prints whether the check reported a violation.
 cd /verif
 SEEDS="$@"
-[ -z "$SEEDS" ] && SEEDS=$(ls seeded)
+[ -z "$SEEDS" ] && SEEDS=$(cd seeded && ls -d */ | tr -d /)
 if [ -n "$(git -C /repo status --porcelain)" ]; then echo "/repo has uncommitted changes; commit first"; exit 2; fi
 for s in $SEEDS; do
   prop=$(python3 -c "import json;print(json.load(open('seeded/$s/meta.json'))['property'])")
